@@ -622,6 +622,23 @@ fn main() {
     let mut rng = Rng::new(args.seed);
     let mut cases: Vec<Case> = vec![];
 
+    // 0. corpus: the inputs of past findings (F7 rational %%, F9 `%` by zero, F10 0^negative) and the
+    //    examples of the property text, run first
+    {
+        let i = |n: i64| VO::Num(Val::Int(BigInt::from(n)));
+        let r = |n: i64, d: i64| VO::Num(Val::Rat(q(BigInt::from(n), BigInt::from(d))));
+        let fixed: Vec<(&str, VO, VO)> = vec![
+            ("%%", r(-7, 2), i(2)), ("//", r(-7, 2), i(2)), ("%%", i(6), r(-12, 1)), ("%%", r(1, 2), r(-1, 3)),
+            ("%%", r(-3, 1), i(2)), ("%", i(5), i(0)), ("%", r(1, 2), i(0)), ("%", r(1, 2), r(0, 1)),
+            ("^", i(0), i(-1)), ("^", r(0, 1), i(-1)), ("^", i(2), i(-2)), ("^", r(2, 3), i(-2)),
+            ("/", i(2), i(2)), ("/", i(35), i(28)), ("/", i(7), i(4)), ("/", i(1), i(0)), ("/", i(0), i(0)),
+            ("/", i(-1), i(0)), ("/", r(1, 2), i(0)), ("//", i(7), i(-2)), ("%%", i(7), i(-2)),
+            ("+", VO::Vec(vec![Val::Int(BigInt::from(4)), Val::Int(BigInt::from(6))]), i(1)),
+        ];
+        for (op, a, b) in fixed {
+            cases.push(mk_bin(op, &a, &b, &mut rng));
+        }
+    }
     // 1. systematic: every operator on every pair of levels with special values (scalars)
     let level_samples = |rng: &mut Rng, lvl: usize| -> Val {
         match lvl {
